@@ -25,10 +25,16 @@ type c18Case struct {
 	Dist    string  `json:"dist"`
 	P1      *term.T `json:"p1"`
 	P2      *term.T `json:"p2"`
+	// the initializer OBJECT of this case: built by the first draw, used by all later ones (a layer calls Init on one
+	// object for several parameters; what an object remembers from one Init must not show in the next)
+	obj layers.Initializer
 }
 
 func (c *c18Case) draw() (tensor.Tensor, error) {
 	a, b := c.A.Eval(nil, 1).V, c.B.Eval(nil, 1).V
+	if c.obj != nil {
+		return c.obj.Init(append([]int{}, c.Dims...))
+	}
 	var in layers.Initializer
 	var err error
 	switch c.Kind {
@@ -66,6 +72,7 @@ func (c *c18Case) draw() (tensor.Tensor, error) {
 	if err != nil {
 		return nil, err
 	}
+	c.obj = in
 	return in.Init(append([]int{}, c.Dims...))
 }
 
@@ -84,11 +91,16 @@ func check18u(c *c18Case, n int) string {
 	var all []float64
 	var pos []float64
 	var first, second []float64
+	var prevT tensor.Tensor
 	for k := 0; k < calls; k++ {
 		t, err := c.draw()
 		if err != nil {
 			return fmt.Sprintf("valid configuration rejected: %v", err)
 		}
+		if prevT != nil && t == prevT {
+			return "two calls returned the very same tensor object (every call returns a fresh tensor)"
+		}
+		prevT = t
 		dims, flat, err := bind.Read(t)
 		if err != nil {
 			return err.Error()
